@@ -83,6 +83,16 @@ func (e *encoder) s(x string) int64 {
 	return e.strs.put(it)
 }
 
+// a status code is any Go int (HAProxy logs -1 when no response status was
+// seen); the wire carries non-negative numbers only: v >= 0 as v, v < 0 as
+// 2^61 - v (Model.v, zst)
+func encStatus(s int) int64 {
+	if s >= 0 {
+		return int64(s)
+	}
+	return (int64(1) << 61) - int64(s)
+}
+
 func micro(f float64) int64 { return int64(math.Round(f * 1e6)) }
 
 func (e *encoder) table(ps []Pair) int64 {
@@ -96,7 +106,7 @@ func (e *encoder) table(ps []Pair) int64 {
 func (e *encoder) agg(o EndpointObs) int64 {
 	it := []int64{int64(o.Count), int64(len(o.Statuses))}
 	for _, s := range o.Statuses {
-		it = append(it, int64(s.Status), int64(s.Count))
+		it = append(it, encStatus(s.Status), int64(s.Count))
 	}
 	return e.aggs.put(append(it, o.Min, o.Max, micro(o.AvgDur), micro(o.AvgTDur)))
 }
@@ -128,7 +138,7 @@ func coq(k *Case) string {
 	e := &encoder{}
 	recs := []int64{int64(len(k.Records))}
 	for _, r := range k.Records {
-		recs = append(recs, e.s(r.Method), e.s(r.URL), int64(r.Status), int64(r.Dur), int64(r.TDur), r.TS,
+		recs = append(recs, e.s(r.Method), e.s(r.URL), encStatus(r.Status), int64(r.Dur), int64(r.TDur), r.TS,
 			e.s(r.Cons), e.s(r.Icpt), b2i(r.Internal))
 	}
 	runs := []int64{int64(len(k.Runs))}
@@ -238,6 +248,10 @@ func genCase(r *c.Rng, maxLen int) Case {
 		rec.Internal = r.Chance(1, 12)
 		k.Records = append(k.Records, rec)
 	}
+	// status values that are not HTTP status codes (-1 0 99 600 999), in a third of the streams
+	if r.Chance(1, 3) {
+		sprinkleOddStatuses(r, k.Records, 1, 3)
+	}
 	return k
 }
 
@@ -326,6 +340,13 @@ func process(o *c.Out, k *Case) {
 		}
 	}
 	idx := o.Case("stream", coq(&kk), slim(&kk), (conv && restart) || collide)
+	emitSettle(o, k)
+	for _, rec := range k.Records {
+		if !rec.Internal && (rec.Status < 100 || rec.Status > 599) {
+			o.Count("stream:with-non-http-status-values")
+			break
+		}
+	}
 	o.CountN("runs", len(k.Runs))
 	for _, h := range monitor(o, k) {
 		h.Suite, h.Index = "stream", idx
@@ -346,6 +367,7 @@ func main() {
 	o.DeclareSuite("stream", "From Coq Require Import Uint63.\nFrom Verif Require Import C15.Model.", "fcase", "run_flat")
 	o.DeclareSuite("witness", "From Coq Require Import Uint63.\nFrom Verif Require Import C15.Model C15.Witness.", "fcase", "run_witness")
 	o.DeclareSuite("faults", "From Coq Require Import Uint63.\nFrom Verif Require Import C15.Model C15.Faults.", "fcase", "run_faults")
+	o.DeclareSuite("settle", "From Coq Require Import Uint63.\nFrom Verif Require Import C15.Model C15.Settle.", "fcase", "run_settle")
 	o.DeclareSuite("notify", "From Coq Require Import Uint63.\nFrom Verif Require Import C15.Model C15.Faults C15.Notify.", "fcase", "run_notify")
 	o.Rule("random access-log streams of 1-30 records over small URL alphabets (2-6 path parts, depth 1-3, " +
 		"1-3 hosts, split threshold 1-3 so that path-parameter convergence happens mid-stream; some streams with " +
@@ -406,6 +428,20 @@ func main() {
 	}
 	for _, k := range corpusCases() {
 		k := k
+		process(o, &k)
+	}
+	// the first flush on the empty aggregation crosses the split threshold alone; status
+	// values that are not HTTP status codes (settle.go)
+	for _, k := range settleCorpus(o) {
+		k := k
+		o.Count("settle-stream:corpus")
+		process(o, &k)
+	}
+	nfb := o.Scale(24, 240, 300)
+	for i := 0; i < nfb; i++ {
+		k := genFirstBatchCase(o.Rng)
+		k.Runs = batchings(o, len(k.Records))
+		o.Count("settle-stream:generated")
 		process(o, &k)
 	}
 	n := o.Scale(120, 1200, 1000)
